@@ -26,7 +26,7 @@ POSITIONS = ["input", "vars", "action", "tinput", "items", "concurrency", "delay
              "retry_delay", "when", "publish", "output"]
 KINDS = ["missing_key", "wrong_type", "unknown_fn", "div_zero", "undefined", "string_value"]
 STRING_VALUE_POSITIONS = ("items", "concurrency", "delay", "retry_count", "retry_delay")
-POINTS = ["start", "mid", "join", "loop2", "resume", "rerun"]
+POINTS = ["start", "mid", "join", "loop2", "resume", "rerun", "canceling"]
 
 
 def bad_expr(kind, lang, boolean=False, loop=False):
@@ -62,6 +62,8 @@ def template(position, kind, lang, point):
         return None
     if kind == "string_value" and position not in STRING_VALUE_POSITIONS:
         return None
+    if point == "canceling" and position not in ("when", "publish", "retry_when"):
+        return None  # nothing is rendered or started once a cancel was requested
     bad = bad_expr(kind, lang, boolean=position in ("when", "retry_when"), loop=loop)
     ok = "<% succeeded() %>" if lang == "yaql" else "{{ succeeded() }}"
     xs = "<% ctx(xs) %>" if lang == "yaql" else "{{ ctx('xs') }}"
@@ -133,6 +135,10 @@ def template(position, kind, lang, point):
         T["t0"] = task(next=[{"when": ok, "do": "x"}])
         T["x"] = X
         plan = "pause_resume"
+    elif point == "canceling":
+        T["t0"] = task(next=[{"when": ok, "do": "x"}])
+        T["x"] = X
+        plan = "cancel_inflight"
     elif point == "rerun":
         T["t0"] = task(next=[{"when": ok, "do": "t1"}])
         T["t1"] = task(next=[{"when": ok, "do": "x"}])
@@ -232,6 +238,16 @@ def drive(run, plan, pol):
             run.complete(pol.pick(run))
         if run.status() == "paused":
             run.request("resuming")
+        explore.run_free(run, pol, start=False)
+    elif plan == "cancel_inflight":
+        # the cancel request lands while the task whose completion evaluates the failing expression is in flight
+        run.request("running")
+        for _ in range(6):
+            run.poll()
+            if any(a["task"] == "x" for a in run.inflight) or not run.inflight:
+                break
+            run.complete(pol.pick(run))
+        run.request("canceling")
         explore.run_free(run, pol, start=False)
     elif plan == "rerun":
         run.outcomes.force = lambda a: (("failed", None) if a["task"] == "t1" and not run.ctl["reruns"] else None)
@@ -389,8 +405,12 @@ def jobs(tier, seed):
     ncomb = len(POSITIONS) * len(KINDS) * 2 * len(POINTS)
     js = batches("templates", ncomb, scale(tier, 60, 40), name="templates")
     if tier == "quick":
-        # a rotating third of the template space
+        # a rotating third of the template space, plus (always) every template of the kinds / points whose
+        # containment depends on a guard other than the evaluator's own exception type
         js = [j for i, j in enumerate(js) if i % 3 == seed % 3] + [j for i, j in enumerate(js) if i % 3 != seed % 3][:2]
+        combos = [(p, k, l, pt) for p in POSITIONS for k in KINDS for l in ("yaql", "jinja") for pt in POINTS]
+        always = [i for i, c in enumerate(combos) if c[1] == "string_value" or c[3] == "canceling" or c[0].startswith("retry_")]
+        js += [dict(fn="templates", lo=i, hi=i + 1, name="templates") for i in always]
     P = dict(p_items=0.2, p_retry=0.25, p_ainput=0.5, p_pub=0.8, p_expr_count=0.5, p_expr_conc=0.5, p_delay=0.1, nmax=6)
     js += batches("failpoints", scale(tier, 60, 1500), scale(tier, 4, 30), gen="mix", p_loop=0.25, P=P, gseed=seed,
                   cap=scale(tier, 25, 80), name="failpoints")
